@@ -24,7 +24,7 @@ PATTERN = r"^https://sp\.example\.org/"
 PATTERN_ONLY = "https://sp.example.org/not-an-endpoint"   # matches the pattern but is no registered endpoint
 
 IRT = ("match", "unknown", "absent")
-SCD = ("match", "different", "absent")
+SCD = ("match", "different", "absent", "nodata-then-different", "match-then-different")
 DEST = ("own", "foreign", "absent", "pattern-only", "own-plus-suffix", "own-prefix", "own-other-case", "own-with-query")
 AUD = ("none", "one-naming", "one-foreign", "two-both-naming", "two-one-foreign", "two-foreign-first", "empty-restriction", "naming-among-several-audiences")
 RECIP = ("own", "foreign", "entityid")
@@ -42,7 +42,13 @@ def gen_cases(tier, seed):
         for signed in ((0, 1) if tier == "thorough" else (0,)):
             cid = "irt:%s-scd:%s-dest:%s-aud:%s-rec:%s-u%d-c%d-p%d-%s" % (irt, scd, dest, aud, rec, unsol, conv, pat, "s" if signed else "p")
             cases.append({"id": cid, "sig": [irt, scd, dest, aud, rec, unsol, conv, pat, signed], "irt": irt, "scd": scd, "dest": dest, "aud": aud,
-                          "rec": rec, "unsol": unsol, "conv": conv, "pat": pat, "signed": signed})
+                          "rec": rec, "unsol": unsol, "conv": conv, "pat": pat, "signed": signed, "arrive": "post", "eps": "both"})
+    # the binding the response arrives over and the endpoints the SP has for it
+    for arrive, eps in (("redirect", "both"), ("redirect", "post-only"), ("post", "post-only")):
+        for irt, dest, aud, unsol, pat in itertools.product(("match", "unknown"), DEST, ("one-naming", "one-foreign"), (0, 1), (0, 1)):
+            cid = "arrive:%s-eps:%s-irt:%s-dest:%s-aud:%s-u%d-p%d" % (arrive, eps, irt, dest, aud, unsol, pat)
+            cases.append({"id": cid, "sig": [arrive, eps, irt, dest, aud, unsol, pat], "irt": irt, "scd": "match", "dest": dest, "aud": aud, "rec": "own",
+                          "unsol": unsol, "conv": 0, "pat": pat, "signed": 0, "arrive": arrive, "eps": eps})
     return cases
 
 
@@ -50,15 +56,18 @@ def setup_worker(ctx):
     ctx.fedcache = fed.Cache()
 
 
-def _pair(ctx, unsol, pat, signed):
+def _pair(ctx, unsol, pat, signed, eps="both"):
     def build():
+        from saml2_tophat import BINDING_HTTP_POST
         extra = {"allow_unsolicited": bool(unsol), "want_response_signed": bool(signed)}
         if pat:
             extra["valid_destination_regex"] = PATTERN
+        if eps == "post-only":
+            extra["endpoints"] = {"assertion_consumer_service": [(fed.ACS_POST, BINDING_HTTP_POST)]}
         spc = fed.sp_conf(**extra)
         idc = fed.idp_conf()
-        return fed.make_sp(spc, [fed.metadata_of(idc)]), fed.make_idp(idc, [fed.metadata_of(spc)])
-    return ctx.fedcache.get("pair", [unsol, pat, signed], build)
+        return fed.make_sp(spc, [fed.metadata_of(idc)]), fed.make_idp(idc, [fed.metadata_of(fed.sp_conf(**dict(extra, endpoints=None)) if eps == "post-only" else spc)])
+    return ctx.fedcache.get("pair", [unsol, pat, signed, eps], build)
 
 
 def _aud_xml(doc, layout):
@@ -72,18 +81,44 @@ def _aud_xml(doc, layout):
             "naming-among-several-audiences": ar(other, me, third)}[layout]
 
 
+def _deliver(sp, xml, outstanding, binding, **kw):
+    import base64
+    import zlib
+    from saml2_tophat import BINDING_HTTP_POST
+    data = xml.encode("utf-8")
+    enc = base64.b64encode(data).decode() if binding == BINDING_HTTP_POST else base64.b64encode(zlib.compress(data)[2:-4]).decode()
+    try:
+        return sp.parse_authn_request_response(enc, binding, outstanding, **kw), None
+    except Exception as exc:
+        return None, exc
+
+
 def run_case(case, ctx):
-    sp, idp = _pair(ctx, case["unsol"], case["pat"], case["signed"])
-    xml = fed.issue(idp, {"givenName": ["Ann"]}, in_response_to="id-req-1", sign_response=False)
+    from saml2_tophat import BINDING_HTTP_POST, BINDING_HTTP_REDIRECT
+    arrive, eps = case.get("arrive", "post"), case.get("eps", "both")
+    sp, idp = _pair(ctx, case["unsol"], case["pat"], case["signed"], eps)
+    binding = BINDING_HTTP_POST if arrive == "post" else BINDING_HTTP_REDIRECT
+    own_for_binding = ([fed.ACS_POST] if arrive == "post" else ([fed.ACS_REDIRECT] if eps == "both" else []))
+    own_acs = own_for_binding[0] if own_for_binding else fed.ACS_POST      # what an honest IdP would have addressed
+    xml = fed.issue(idp, {"givenName": ["Ann"]}, in_response_to="id-req-1", destination=own_acs, sign_response=False)
     d = xk.Doc(xml)
     d = d.set_attr(d.root, "InResponseTo", {"match": "id-req-1", "unknown": "id-never-sent", "absent": None}[case["irt"]])
-    d = d.set_attr(d.root, "Destination", {"own": OWN_ACS, "foreign": FOREIGN, "absent": None, "pattern-only": PATTERN_ONLY,
-                                           "own-plus-suffix": OWN_ACS + "/x", "own-prefix": OWN_ACS[:-5], "own-other-case": OWN_ACS.replace("/acs/", "/ACS/"),
-                                           "own-with-query": OWN_ACS + "?x=1"}[case["dest"]])
+    d = d.set_attr(d.root, "Destination", {"own": own_acs, "foreign": FOREIGN, "absent": None, "pattern-only": PATTERN_ONLY,
+                                           "own-plus-suffix": own_acs + "/x", "own-prefix": own_acs[:-5], "own-other-case": own_acs.replace("/acs/", "/ACS/"),
+                                           "own-with-query": own_acs + "?x=1"}[case["dest"]])
     scd = d.find(xk.SAML, "SubjectConfirmationData")[0]
-    d = d.set_attr(scd, "InResponseTo", {"match": "id-req-1", "different": "id-other-request", "absent": None}[case["scd"]])
+    d = d.set_attr(scd, "InResponseTo", {"match": "id-req-1", "different": "id-other-request", "absent": None,
+                                         "nodata-then-different": "id-other-request", "match-then-different": "id-req-1"}[case["scd"]])
     scd = d.find(xk.SAML, "SubjectConfirmationData")[0]
-    d = d.set_attr(scd, "Recipient", {"own": OWN_ACS, "foreign": FOREIGN, "entityid": fed.SP_EID}[case["rec"]])
+    d = d.set_attr(scd, "Recipient", {"own": own_acs, "foreign": FOREIGN, "entityid": fed.SP_EID}[case["rec"]])
+    if case["scd"] == "nodata-then-different":
+        # a first bearer confirmation without any data in front of the one that names another request
+        sc = d.find(xk.SAML, "SubjectConfirmation")[0]
+        p0 = d.prefix(sc)
+        d = d.insert_before(sc, '<%s:SubjectConfirmation Method="urn:oasis:names:tc:SAML:2.0:cm:bearer"/>' % p0)
+    elif case["scd"] == "match-then-different":
+        sc = d.find(xk.SAML, "SubjectConfirmation")[0]
+        d = d.insert_after(sc, d.outer(sc).decode("utf-8").replace('InResponseTo="id-req-1"', 'InResponseTo="id-other-request"'))
     for a in d.find(xk.SAML, "AudienceRestriction"):
         pass
     while d.find(xk.SAML, "AudienceRestriction"):
@@ -99,7 +134,7 @@ def run_case(case, ctx):
     kw = {}
     if case["conv"]:
         kw["conv_info"] = {"entity_id": fed.SP_EID, "remote_addr": "0.0.0.0"}
-    resp, exc = fed.deliver(sp, doc, outstanding, **kw)
+    resp, exc = _deliver(sp, doc, outstanding, binding, **kw)
     accepted = resp is not None
     outcome = "accept" if accepted else "reject:" + (type(exc).__name__ if exc is not None else "None")
 
@@ -111,13 +146,14 @@ def run_case(case, ctx):
     elif case["pat"]:
         r_dest = case["dest"] != "foreign"            # everything else starts with https://sp.example.org/
     else:
-        r_dest = case["dest"] == "own"
+        r_dest = case["dest"] == "own" and bool(own_for_binding)
     r_aud = case["aud"] in ("none", "one-naming", "two-both-naming", "naming-among-several-audiences")
     r_rec = (not case["conv"]) or case["rec"] in ("own", "entityid")
     allowed = r_solicit and r_dest and r_aud and r_rec
-    conforming = case["irt"] == "match" and case["scd"] == "match" and case["dest"] in ("own", "absent") and r_aud and case["rec"] in ("own", "entityid")
+    conforming = case["irt"] == "match" and case["scd"] == "match" and (case["dest"] == "absent" or (case["dest"] == "own" and own_for_binding)) \
+        and r_aud and case["rec"] in ("own", "entityid") and (bool(own_for_binding) or arrive == "post")
     viol = []
-    desc = "InResponseTo=%s bearer-InResponseTo=%s Destination=%s audience=%s Recipient=%s allow_unsolicited=%s conv_info=%s pattern=%s: %s" % (
+    desc = "arrives-over=%s sp-endpoints=%s " % (arrive, eps) + "InResponseTo=%s bearer-InResponseTo=%s Destination=%s audience=%s Recipient=%s allow_unsolicited=%s conv_info=%s pattern=%s: %s" % (
         case["irt"], case["scd"], case["dest"], case["aud"], case["rec"], bool(case["unsol"]), bool(case["conv"]), bool(case["pat"]), outcome)
     if accepted and not allowed:
         if not r_aud:
@@ -130,6 +166,8 @@ def run_case(case, ctx):
             key = "C05/unsolicited-response-accepted"
         elif not r_dest:
             key = "C05/foreign-destination-accepted"
+            if not own_for_binding:
+                key = "C05/destination-unchecked-when-no-endpoint-for-arriving-binding"
         else:
             key = "C05/foreign-recipient-accepted"
         viol.append({"key": key, "what": desc, "detail": {"document": doc[:5000]}})
@@ -138,7 +176,7 @@ def run_case(case, ctx):
     if accepted and case["irt"] == "match" and getattr(resp, "came_from", None) != "/came/from":
         viol.append({"key": "C05/came_from-not-that-of-the-outstanding-request", "what": desc + " came_from=%r" % getattr(resp, "came_from", None)})
     return {"outcome": outcome, "nontrivial": True, "violations": viol,
-            "counters": {"accepted": int(accepted), "conforming": int(conforming), "allowed_by_reference": int(allowed)},
+            "counters": {"accepted": int(accepted), "conforming": int(bool(conforming)), "allowed_by_reference": int(allowed)},
             "obs": {"allowed": allowed, "conforming": conforming}}
 
 
